@@ -440,7 +440,11 @@ func c51Link(rt *rapid.T, rec *ev.Rec, w *c51World) {
 			continue
 		}
 		if o.Kind == "forwarded" {
-			rec.Fail(rt, "link-invalid-forwarded/"+why, wit, "invalid link (%s; mutation %s; nodes %v) was forwarded to the backend", why, mut, nodeDesc)
+			key := "link-invalid-forwarded/" + why
+			if why == "bad-checksum" && strings.HasPrefix(mut, "checksum-") {
+				key += "/" + mut // discriminating feature: how the checksum differs from the right one
+			}
+			rec.Fail(rt, key, wit, "invalid link (%s; mutation %s; nodes %v) was forwarded to the backend", why, mut, nodeDesc)
 			continue
 		}
 		if o.Kind == "closed" {
